@@ -28,19 +28,20 @@ LEVEL = "model_checking"
 
 def fam_specs():
     S = {}
-    S["Hill"] = dict(cls=("iOpt.problems.hill", "Hill"), keys=[(3,), (4,)], points=[[0.37], [0.0]],
+    S["Hill"] = dict(cls=("iOpt.problems.hill", "Hill"), keys=[(3,), (4,)], points=[[0.37], [0.0], [1.0]],
                      mods=["iOpt.problems.Hill.hill_generation"])
-    S["Shekel"] = dict(cls=("iOpt.problems.shekel", "Shekel"), keys=[(7,), (8,)], points=[[4.2], [10.0]],
+    S["Shekel"] = dict(cls=("iOpt.problems.shekel", "Shekel"), keys=[(7,), (8,)], points=[[4.2], [10.0], [0.0]],
                        mods=["iOpt.problems.Shekel.shekel_generation"])
     S["Shekel4"] = dict(cls=("iOpt.problems.shekel4", "Shekel4"), keys=[(1,), (3,)],
-                        points=[[4.0, 4.0, 4.0, 4.0], [1.5, 7.25, 3.0, 9.0]], mods=["iOpt.problems.Shekel4.shekel4_generation"])
+                        points=[[4.0, 4.0, 4.0, 4.0], [1.5, 7.25, 3.0, 9.0], [4.7, 4.0, 3.2, 4.9]],
+                        mods=["iOpt.problems.Shekel4.shekel4_generation"])
     S["Grishagin"] = dict(cls=("iOpt.problems.grishagin", "Grishagin"), keys=[(1,), (2,)],
-                          points=[[0.066182, 0.582587], [1.0, 0.0]],
+                          points=[[0.066182, 0.582587], [1.0, 0.0], [0.25, 0.066182], [0.582587, 0.25]],
                           mods=["iOpt.problems.grishagin_function.grishagin_generation"])
     S["Rastrigin"] = dict(cls=("iOpt.problems.rastrigin", "Rastrigin"), keys=[(2,), (3,)],
                           points=[[0.0, 0.0, 0.0], [-2.2, 1.8, 0.5]], mods=[])
     S["XSquared"] = dict(cls=("iOpt.problems.xsquared", "XSquared"), keys=[(2,), (3,)],
-                         points=[[0.0, 0.0, 0.0], [-1.0, 1.0, 0.25]], mods=[])
+                         points=[[0.0, 0.0, 0.0], [-1.0, 1.0, 0.25], [1.0, 1.0, 1.0]], mods=[])
     S["StronginC3"] = dict(cls=("iOpt.problems.stronginC3", "StronginC3"), keys=[(), ()],
                            points=[[0.941176, 0.941176], [2.0, 1.5]], mods=[],
                            fids=[("O", 0), ("C", 0), ("C", 1), ("C", 2)])
